@@ -45,6 +45,15 @@ fn scenarios(which: Which, u: &Universe, arch: &Arch, n: usize) -> Vec<Scenario>
             v.push(mk(Some(u.concat(&letters, &p)), true, vec![]));
         }
         v.push(mk(Some(arch.source.clone()), true, vec![]));
+        // a chunk twice in the prior output before another one (whatever the depth n): the scan must not
+        // lose count of what it has seen
+        for a in 0..letters.len() {
+            for b in 0..letters.len() {
+                if a != b {
+                    v.push(mk(Some(u.concat(&letters, &[a, a, b])), true, vec![]));
+                }
+            }
+        }
     }
     if which == Which::C02 {
         // an existing, longer output that is overwritten (--force-create) while seeds supply some or
